@@ -344,12 +344,22 @@ def _run_scenario(inst, res):
                 if str(sv.check()) == 'sat':
                     mm = model_matrix(sv.model(), Tb)
                     want = p.value if not is_sym(p.value) else bool(z3.is_true(sv.model().eval(z3val(p.value), model_completion=True)))
+                    # engine validation: the jitted kernel on the same generator
+                    if bool(gen_b.validate_matrix(np.array(mm, dtype=int).reshape(nsb, ntb))) != bool(want):
+                        res['status'] = HARNESS_ERROR
+                        res['notes'].append(f'concolic mismatch on {mm}')
+                    res['validated'] += 1
+                    # property: validate_conn_edges (edge list -> matrix -> validator) accepts exactly the valid sets
                     if sum(sum(r_) for r_ in mm) <= 40:
                         edges = [(sb[i], tb[j]) for i in range(nsb) for j in range(ntb) for _ in range(mm[i][j])]
-                        if bool(K.validate_conn_edges(inst_g, edges)) != bool(want):
-                            res['status'] = HARNESS_ERROR
-                            res['notes'].append(f'concolic mismatch on {mm}')
-                        res['validated'] += 1
+                        res['obligations'] += 1
+                        got = bool(K.validate_conn_edges(inst_g, edges))
+                        if got != spec_b.holds(mm):
+                            _viol(res, 'scenario', dict(kind='graph_view_validate_conn_edges_native', accepts=got, **sig), cfg,
+                                  dict(i_comb=i_comb, matrix=mm, connectors=[str(c) for c in sb+tb]), dict(validate_conn_edges=got),
+                                  dict(valid_for_present_connectors=spec_b.holds(mm)))
+                        else:
+                            res['discharged'] += 1
                 sv.pop()
 
             # --- views agree on feasibility; a masked scenario is never decoded to
